@@ -10,6 +10,7 @@ package interp
 
 import (
 	"fmt"
+	"os"
 	"go/token"
 	"go/types"
 	"sort"
@@ -128,7 +129,7 @@ func (s *scheduler) pickNext() *goroutine {
 		}
 		return cand[0]
 	}
-	if len(cand) > 1 && s.i.cfg.SchedChoices > 0 && s.i.schedChoicesUsed < s.i.cfg.SchedChoices {
+	if len(cand) > 1 && s.i.schedChoicesUsed < s.i.schedBudget() {
 		s.i.schedChoicesUsed++
 		return cand[s.i.chooseN(len(cand))]
 	}
@@ -272,6 +273,9 @@ func (s *scheduler) spawn(fn value, args []value, pos string) {
 	g.vc = s.cur.vc.fork(s.cur.id, g.id)
 	s.cur.vc = s.cur.vc.inc(s.cur.id) // what the parent does after the go statement is not ordered before the child
 	s.gs = append(s.gs, g)
+	if debugSched {
+		fmt.Fprintf(os.Stderr, "spawn g%d by g%d at %s (t=%d)\n", g.id, s.cur.id, pos, s.now)
+	}
 	i := s.i
 	go func() {
 		<-g.wake
@@ -432,6 +436,7 @@ func (s *scheduler) chanSendNB(c *schan, v value) bool {
 		w.g.vc = w.g.vc.join(s.cur.vc)
 		s.cur.vc = s.cur.vc.join(w.g.vc) // unbuffered rendezvous synchronises both ways
 		s.tick()
+		w.g.vc = w.g.vc.inc(w.g.id) // what either side does afterwards is not ordered before the other
 		s.wakeG(w.g)
 		return true
 	}
@@ -480,6 +485,7 @@ func (s *scheduler) chanRecvNB(c *schan) (value, bool, bool) {
 		if w := dequeue(&c.sendq); w != nil {
 			c.buf = append(c.buf, w.val)
 			c.vc = c.vc.join(w.g.vc)
+			w.g.vc = w.g.vc.inc(w.g.id)
 			w.g.selIdx = w.idx
 			w.g.recvOK = true
 			s.wakeG(w.g)
@@ -490,6 +496,7 @@ func (s *scheduler) chanRecvNB(c *schan) (value, bool, bool) {
 		s.cur.vc = s.cur.vc.join(w.g.vc)
 		w.g.vc = w.g.vc.join(s.cur.vc)
 		s.tick()
+		w.g.vc = w.g.vc.inc(w.g.id)
 		w.g.selIdx = w.idx
 		w.g.recvOK = true
 		s.wakeG(w.g)
@@ -575,7 +582,7 @@ func (s *scheduler) selectOp(cases []selCase, blocking bool) (int, value, bool) 
 	}
 	if len(ready) > 0 {
 		k := ready[0]
-		if len(ready) > 1 && s.i.cfg.SchedChoices > 0 && s.i.schedChoicesUsed < s.i.cfg.SchedChoices {
+		if len(ready) > 1 && s.i.schedChoicesUsed < s.i.schedBudget() {
 			s.i.schedChoicesUsed++
 			k = ready[s.i.chooseN(len(ready))]
 		}
@@ -711,4 +718,14 @@ func (s *scheduler) after(d int64) *schan {
 	ch := s.newChan(1, nil)
 	s.timers = append(s.timers, &vtimer{at: s.now + d, ch: ch})
 	return ch
+}
+
+var debugSched = os.Getenv("SYMGO_DEBUG_SCHED") != ""
+
+// schedBudget is the number of scheduler decisions explored on the current path.
+func (i *interpreter) schedBudget() int {
+	if i.job != nil && i.job.SchedChoices > 0 {
+		return i.job.SchedChoices
+	}
+	return i.cfg.SchedChoices
 }
